@@ -15,7 +15,7 @@ PROP = dict(
         "backends: bbolt (quick, thorough) and lnd's SQL-backed kvdb on sqlite (thorough job, build tag kvdb_sqlite)",
     ],
     jobs=dict(
-        quick=[job("lnwallet", "^TestVerifC03", ["TestVerifC03Resync"], 60, shards=8, timeout=600,
+        quick=[job("lnwallet", "^TestVerifC03", ["TestVerifC03Resync"], 120, shards=8, timeout=600,
                    env=dict(VERIF_STEPS=50))],
         thorough=[job("lnwallet", "^TestVerifC03", ["TestVerifC03Resync"], 500, shards=16, timeout=2400,
                       env=dict(VERIF_STEPS=120)),
